@@ -47,6 +47,8 @@ func main() {
 		opAggregate(r, *n, *tier)
 	case "less3":
 		opLess3(r, *n, *tier)
+	case "aggx":
+		opAggx(r, *n, *tier)
 	case "scan":
 		opScan(r, *n, *tier, *mix)
 	case "scanseq":
